@@ -85,7 +85,8 @@ SIM = {
     "sim-class": prof(K=12, depth=4, cls=True, loop=True, init=True, late=True, nv=2, maxpar=1),
     "sim-block": prof(K=12, depth=5, loop=True, init=True, nv=3, maxpar=2),
 }
-QUICK_CAP = 360          # programs evaluated per BFS profile in the quick tier (seeded sample of the enumerated set)
+THOROUGH_CAP = 4000      # programs evaluated per BFS profile in the thorough tier
+QUICK_CAP = 240          # programs evaluated per BFS profile in the quick tier (seeded sample of the enumerated set)
 SIBLINGS = 3             # the simulator evaluates Emit on every successor of the last step: keep this many per walk
 
 
@@ -111,46 +112,75 @@ def tlc_generate(profiles, simulate=None, seed=1, workers=1, timeout=3000):
                  timeout=timeout, extra=extra, xmx="8g")
     if not r.ok:
         raise vlib.InfraError("Scopes.tla (%s) failed rc=%s\n%s" % (",".join(profiles), r.rc, r.out[-3000:]))
+    return out, work, r
+
+
+def load_programs(path, cap, rnd):
+    """Reads the programs TLC wrote (possibly several hundred thousand lines) in two passes: (1) digest + profile of
+    every line, (2) only the chosen lines.  cap: maximal number per profile (None = all), chosen by the seeded rnd.
+    Returns (programs, {profile: number enumerated})."""
+    import hashlib
+    index = {}                                   # profile -> {digest: line number}
+    with open(path) as f:
+        for n, line in enumerate(f):
+            if not line.strip():
+                continue
+            m = re.search(r'"profile":"([^"]*)"', line)
+            d = hashlib.sha1(re.sub(r',"profile":"[^"]*"', "", line.strip()).encode()).hexdigest()[:12]
+            index.setdefault(m.group(1) if m else "?", {}).setdefault(d, n)
+    want = {}
+    counts = {}
+    for name, ds in index.items():
+        counts[name] = len(ds)
+        keys = sorted(ds)                        # the order in which TLC's workers wrote the lines is not deterministic
+        if cap is not None and len(keys) > cap:
+            keys = rnd.sample(keys, cap)
+        for k in keys:
+            want[ds[k]] = k
     progs = []
-    seen = set()
-    for row in vlib.read_ndjson(out):
-        d = vlib.digest(row["prog"])
-        if d in seen:
-            continue
-        seen.add(d)
-        row["key"] = d
-        progs.append(row)
-    shutil.rmtree(work, ignore_errors=True)
-    progs.sort(key=lambda x: x["key"])          # the order TLC's workers wrote the lines is not deterministic
-    return progs, r
+    with open(path) as f:
+        for n, line in enumerate(f):
+            if n in want:
+                row = json.loads(line)
+                row["key"] = want[n]
+                progs.append(row)
+    progs.sort(key=lambda x: (x["profile"], x["key"]))
+    return progs, counts
 
 
-def generate(tier, seed):
+def generate(tier, seed, profiles=None, cap=None, nsim=None):
+    """-> (programs, per-profile statistics, TLC statistics).  Defaults: the profiles / caps of C08's tiers."""
     import random
-    profiles = PROFILES_QUICK if tier == "quick" else PROFILES_THOROUGH
-    nsim = 45 if tier == "quick" else 6000
+    if profiles is None:
+        profiles = PROFILES_QUICK if tier == "quick" else PROFILES_THOROUGH
+    if cap is None:
+        cap = QUICK_CAP if tier == "quick" else THOROUGH_CAP
+    if nsim is None:
+        nsim = 36 if tier == "quick" else 1500
     stats = {}
     with concurrent.futures.ThreadPoolExecutor(2) as ex:
         f_bfs = ex.submit(tlc_generate, profiles, None, seed, TLC_WORKERS - 1)
         f_sim = ex.submit(tlc_generate, SIM, nsim, seed, 1)
-        bfs, rb = f_bfs.result()
-        sim, rs = f_sim.result()
+        rb = f_bfs.result()
+        rs = f_sim.result()
     rnd = random.Random(seed)
+    bfs, counts = load_programs(rb[0], cap, rnd)
+    sim, _ = load_programs(rs[0], None, rnd)
+    shutil.rmtree(rb[1], ignore_errors=True)
+    shutil.rmtree(rs[1], ignore_errors=True)
+    rb, rs = rb[2], rs[2]
     progs = []
     for name in profiles:
         mine = [p for p in bfs if p["profile"] == name]
-        stats[name] = {"enumerated": len(mine), "exhaustive_enumeration": True}
-        if tier == "quick" and len(mine) > QUICK_CAP:
-            mine = rnd.sample(mine, QUICK_CAP)
-        stats[name]["programs"] = len(mine)
+        stats[name] = {"enumerated": counts.get(name, 0), "programs": len(mine), "exhaustive_enumeration": True,
+                       "all_enumerated_programs_evaluated": len(mine) == counts.get(name, 0)}
         progs += mine
     # simulation: the programs emitted at the last step of one walk differ only in their last item; keep a few per walk
     for name in SIM:
         groups = {}
         for p in sim:
             if p["profile"] == name:
-                groups.setdefault(vlib.digest(p["prog"][:-1] if p["prog"][-1]["op"] != "close" else
-                                              [it for it in p["prog"] if it["op"] != "close"][:-1]), []).append(p)
+                groups.setdefault(vlib.digest([it for it in p["prog"] if it["op"] != "close"][:-1]), []).append(p)
         mine = []
         for g in sorted(groups):
             sib = groups[g]
@@ -250,7 +280,8 @@ def observe_all(progs, batch=BATCH):
     rejected = []
     failures = []
     units = make_units(progs, batch)
-    with concurrent.futures.ThreadPoolExecutor(NPROC) as ex:
+    vlib.tmproot()      # the worker processes (fork) put their scratch directories below the parent's, which removes it at exit
+    with concurrent.futures.ProcessPoolExecutor(NPROC) as ex:
         retry = []
         for unit, res in zip(units, ex.map(run_unit, units)):
             if res["status"] == "ok":
@@ -272,7 +303,7 @@ def observe_all(progs, batch=BATCH):
 
 
 # ------------------------------------------------------------------------------------------------ judge (TLC)
-def tlc_judge(rows, mode="spec", chunk=4000):
+def tlc_judge(rows, mode="spec", chunk=1600):
     work = vlib.mktmp("c08judge")
     bad = []
 
